@@ -606,9 +606,10 @@ struct ttx_page_stat {
 	uint8_t				n_subpages;
 	uint8_t				max_subpages;
 
-	/** Subpage numbers actually received (0x00 ... 0x79). */
-	uint8_t				subno_min;
-	uint8_t				subno_max;
+	/** Subpage numbers actually received (0x00 ... 0x79, clock pages
+	    and hex numbered pages 0x0000 ... 0x3F7F). */
+	uint16_t			subno_min;
+	uint16_t			subno_max;
 };
 
 #endif /* VT_H */
